@@ -29,7 +29,7 @@ CHECKS.update({
    text="mpf_pow_int is transliterated (loop = structural recursion on the bits of n) and run against the live code on bases/exponents on both sides of every switch; every clause of the property (directed results never past the exact power, exact powers exact, nearest within 1 ulp, few-bit powers correctly rounded, huge powers bracketed by integer log2 bounds) is decided exactly per case. The final rounding step is covered by the normalize theorems; the loop invariant theorem is not yet proved. Theorems: for every regular base, exponent, precision and mode, the n=1/n=2/man=1/bc*n<1000 branches equal the Flocq rounding of x^n (and x^n itself when it fits); the loop's running product stays below (above) the exact partial power by induction on the exponent bits, its bit-count bookkeeping is exact up to the tolerated off-by-one, so floor/ceiling/down/up results are never past x^n; for n<0 the (prec+5)-bit power with reciprocal_rnd followed by division is on the right side of 1/x^n. In nearest mode the loop loses at most n*2^(1-wp) relative accuracy (lower-bound invariant with multiplicative (1-2^(1-wp))^k bookkeeping), so every branch returns a value within 3/4 ulp of x^n (C03_nearest).",
    note=TB_A + " Infinities/nan/zero bases and the public operator glue are decided by correspondence, tables and the exact oracle."),
  "C04": dict(level="proof", engine="A", technique="Coq/Flocq theorems (Props/C04.v): mpc add/sub/mul/mul_mpf/add_mpf are componentwise Flocq roundings of the exact complex result, square real part, structural equality; Gallina model of libmpc arithmetic in correspondence; componentwise correct rounding (add/sub/mul/square/mul_mpf/mul_int/pow n>=0) and 4-ulp modulus bound (div/reciprocal/negative powers) decided exactly; mpc operators and equality at API level",
-   text="Complex add/sub/mul/square/pow are compositions of exact products and one correctly rounded add per component in the model (normalize theorems apply); the model is tied to the code by correspondence and every generated case is decided by an exact-rational oracle, including the division family's error bound and exact equality with complex/int/float/mpf. Theorems in Props/C04.v state componentwise correct rounding of add, sub, mul, scaling and the real part of square for all finite components, precisions and modes, that mpc equality is equality of both components, and for division, reciprocal and modulus an exact structural statement (correctly rounded quotient / square root of the (prec+10)- resp. (prec+4)-bit truncations) together with an error bound relative to the modulus: each component of z/w within 3*2^(1-prec)*|z|/|w|, of 1/z within 3*2^(1-prec)/|z|, |z| within 3*2^-prec*|z| (Flocq relative-error lemma + Cauchy-Schwarz).",
+   text="Complex add/sub/mul/square/pow are compositions of exact products and one correctly rounded add per component in the model (normalize theorems apply); the model is tied to the code by correspondence and every generated case is decided by an exact-rational oracle, including the division family's error bound and exact equality with complex/int/float/mpf. Theorems in Props/C04.v state componentwise correct rounding of add, sub, mul, scaling and the real part of square for all finite components, precisions and modes, that mpc equality is equality of both components, and for division, reciprocal and modulus an exact structural statement (correctly rounded quotient / square root of the (prec+10)- resp. (prec+4)-bit truncations) together with an error bound relative to the modulus: each component of z/w within 3*2^(1-prec)*|z|/|w|, of 1/z within 3*2^(1-prec)/|z|, |z| within 3*2^-prec*|z| (Flocq relative-error lemma + Cauchy-Schwarz). mpc_sqrt on the real axis is the correctly rounded real square root (sqrt a for a > 0, i sqrt(-a) for a < 0) in every mode.",
    note=TB_A + " Integer and negative powers, sqrt and mpf/mpc mixed division are decided by the exact oracle, not by a theorem."),
  "C05": dict(level="proof", engine="A", technique="Coq theorems (Props/C05.v): mpf_cmp returns the sign of the exact difference for all canonical finite operands, lt/le/gt/ge agree with the real order, nan unordered; mpf_hash = CPython's integer hash for integer-valued mpfs, the unique solution of h*2^k = m (mod 2^61-1) for dyadic rationals, mpc_hash(x,0) = mpf_hash x (pure Z, axiom-free); Gallina model of mpf_cmp/lt/le/gt/ge/eq, mpf_hash, mpc_hash in correspondence; exact-rational order oracle; hash agreement against the interpreter's hash() of int/float/complex",
    text="Comparison and hash routines are transliterated and tied by correspondence on same-top-bit, tiny-difference, cross-sign and special pairs; at API level every comparison across mpf/int/float/mpc/complex is decided against exact rationals and equal values are required to have equal hash(). Theorems in Props/C05.v: for all finite canonical operands mpf_cmp is the sign of the exact difference and mpf_lt/le/gt/ge hold exactly when the real-number relation holds (so the order inherits totality, antisymmetry and transitivity from the reals); nan is unordered. The hash theorems derive from 2^61 = 1 (mod 2^61-1) that mpf_hash follows the interpreter's rule hash(m/2^k) = m*(2^k)^-1 mod P for every finite value, hence equal numbers hash equally across int, mpf and real-valued mpc. Comparison of an mpf with a Python int or float is proved to be the comparison of the exact values (the right operand is converted exactly: from_int without rounding, from_float at 53 bits).",
